@@ -675,6 +675,18 @@ def _store_local(interp, o, t, v, st, aug, idx):
             o.stores.append((((tv, hi - lo),), (lo + X.var(tv),), Mism(f"slice store length {vc!r} into slot of length {(hi - lo)!r}"))); return
         o.stores.append((((tv, hi - lo),), (lo + X.var(tv),), subst_val(V_.body, {vv: X.var(tv)})))
         return
+    # whole-column store  a[:, k] = v  of a 2-D array (v a length-rows vector or a scalar)
+    if len(idx) == 2 and len(o.shape) == 2 and isinstance(idx[0], tuple) and idx[0][0] == "slice" and idx[0][1] is None and idx[0][2] is None and idx[0][3] is None \
+            and to_x(idx[1]) is not None and to_x(idx[1]).as_int() is not None:
+        rows = o.shape[0]
+        V_ = (as_arr(v) if not isinstance(v, LocalArr) else local_to_arr(v)) if isinstance(v, (Arr, ArrParam, LocalArr)) else None
+        rv = fresh("r")
+        if V_ is None and to_x(v) is not None:
+            o.stores.append((((rv, rows),), (X.var(rv), to_x(idx[1])), to_x(v))); return
+        if V_ is not None and not is_opaque(V_) and V_.ndim == 1:
+            (vv, vc), = V_.axes
+            if not vc.eq(rows): o.stores.append((((rv, rows),), (X.var(rv), to_x(idx[1])), Mism(f"column store of length {vc!r} into {rows!r} rows"))); return
+            o.stores.append((((rv, rows),), (X.var(rv), to_x(idx[1])), subst_val(V_.body, {vv: X.var(rv)}))); return
     o.stores.append(("opaque", Opaque("unsupported store")))
     return
 
@@ -897,7 +909,11 @@ def list_comp(interp, n, st):
         r.filter = (var, count, [interp.eval(c, sub) for c in g.ifs], interp.eval(elt, sub))
         return r
     r = ListVal()
+    n0_ = len(st.assumed)
     r.per_iter = [(var, count, interp.eval(elt, sub))]
+    # the guards met while evaluating one generic element (raise-branches of helpers called per element) are facts about every element
+    interp.loop_summaries[id(n)] = {"ivar": var, "count": count, "assumed": [a_ for a_ in sub.assumed if a_ not in st.assumed[:n0_]], "is_while": False,
+                                    "comprehension": True, "node": n, "appends_by_name": {}, "remap": {}}
     return r
 
 
